@@ -9,7 +9,10 @@ ID = "C07"
 LEAN_MODULES = ["LhasaV.Props.C07"]
 VH_FEATURES = ["reader"]
 PER_OP_SECONDS = 20
-THEOREMS = {"exit_status_iff": "full at model level: exit status 0 iff no exit(-1), no fault, every handled member good (lha t / x / e, any archive)",
+THEOREMS = {"test_intact_archive": "full, on bytes: lha t on the archive of ANY encodable entry list, every packer/option set: all selected entries good, exact stdout, status 0, file system untouched",
+            "test_detects_damage": "full, on bytes: a burst of <= 16 bits (CRC bit order) in ONE stored member's data: that member `CRC error`, every other member good, status 1",
+            "test_detects_truncation": "full, on bytes: the archive cut anywhere inside a stored member's data: members before it good, it bad, status 1",
+            "exit_status_iff": "full at model level: exit status 0 iff no exit(-1), no fault, every handled member good (lha t / x / e, any archive)",
             "handled_members_selected": "full", "exit_status_cases": "full: 255 after exit(-1), else 0 iff every handled member good, else 1 (no fault can occur)", "progress_bar_width": "full",
             "check_iff": "full: verdict good <-> length and CRC of the decoded bytes match (non-Mac members)",
             "check_iff_arc": "full: ... and that CRC is CRC-16/ARC", "extract_iff": "full", "truncation_bad": "full",
